@@ -172,7 +172,22 @@ def case_call(ctx, spec):
     a2 = getattr(bt.algos, kind)(**flags)
     if a2(FakeTarget(idx, outside)) or a2(FakeTarget(idx, None)):
         raise Violation("%s fired on a date outside the data" % kind, signature="call:outside")
-    labs = [kind, "eop" if flags.get("run_on_end_of_period") else "sop"]
+    # nor does a date that is not a row of the data: before the start, and inside every gap between two rows (weekends, holidays,
+    # missing stamps) - whatever period boundary such a date may be
+    n_gap = 0
+    rows = set(idx)
+    probes = [idx[0] - pd.DateOffset(days=2), idx[1] - pd.DateOffset(hours=5)]
+    for a_, b_ in zip(idx[1:-1], idx[2:]):
+        for cand in (a_ + (b_ - a_) / 2, a_ + pd.DateOffset(days=1), b_ - pd.DateOffset(days=1), b_ - pd.DateOffset(minutes=1)):
+            if a_ < cand < b_ and cand not in rows:
+                probes.append(cand)
+    for cand in probes:
+        if cand in rows:
+            continue
+        n_gap += 1
+        if a2(FakeTarget(idx, cand)):
+            raise Violation("%s(%s) fired on %s, which is not a date of the data %s" % (kind, flags, cand, [str(x) for x in idx]), signature="call:not-a-row")
+    labs = [kind, "eop" if flags.get("run_on_end_of_period") else "sop"] + (["gap_dates_probed"] if n_gap > 2 else [])
     isoweeks = {r.isocalendar()[1] for r in real}
     if 53 in isoweeks or (1 in isoweeks and any(r.month == 12 for r in real)):
         labs.append("iso-week-53/1-straddle")
